@@ -31,6 +31,15 @@
 (***************************************************************************)
 EXTENDS Naturals, Integers, Sequences, FiniteSets, TLC
 
+\* Names of deliberately wrong behaviours switched on (anti-vacuity runs of the model checker
+\* show that each property's invariant can fail); {} everywhere else.
+\*   "misroute"        a generic reply is handed to the lowest open channel's handle
+\*   "noterminal"      a removed slot's consumers get no terminal message
+\*   "writeafterseal"  frames are still appended after the buffer was sealed
+\*   "closeall"        a server Channel.Close removes every slot
+\*   "keepsender"      the I/O thread's exit forgets to drop the reply senders
+CONSTANT Bug
+
 NoColl == [kind |-> "none"]
 
 EmptyWorld ==
@@ -59,7 +68,8 @@ Simple(k) == [kind |-> k]
 DropAll(w) ==
     [w EXCEPT !.gone = TRUE,
               !.slots = <<>>,
-              !.hs = [x \in DOMAIN w.hs |-> [w.hs[x] EXCEPT !.dead = TRUE, !.tx = FALSE, !.pend = <<>>]],
+              !.hs = [x \in DOMAIN w.hs |-> [w.hs[x] EXCEPT !.dead = TRUE, !.tx = ("keepsender" \in Bug /\ @),
+                                                             !.pend = <<>>]],
               !.cq = [c \in DOMAIN w.cq |-> [w.cq[c] EXCEPT !.tx = FALSE]],
               !.lq = [x \in DOMAIN w.lq |-> [w.lq[x] EXCEPT !.tx = FALSE]]]
 
@@ -75,7 +85,7 @@ DropCh0(w) ==
     IN IF w1.blk # "" /\ Has(w1.lq, w1.blk) THEN [w1 EXCEPT !.lq[w1.blk].tx = FALSE] ELSE w1
 
 \* inner.push_method: appended unless sealed
-PushOut(w, fr) == IF w.sealed THEN w ELSE [w EXCEPT !.out = Append(@, fr)]
+PushOut(w, fr) == IF w.sealed /\ "writeafterseal" \notin Bug THEN w ELSE [w EXCEPT !.out = Append(@, fr)]
 
 \* send(&slot.tx, ..): the reply queue is bounded(2)
 PushRep(w, h, rep) ==
@@ -104,16 +114,29 @@ DropListeners(w, slot) ==
     LET ls == {slot.ret, slot.conf} \ {""} IN
     [w EXCEPT !.lq = [x \in DOMAIN w.lq |-> IF x \in ls THEN [w.lq[x] EXCEPT !.tx = FALSE] ELSE w.lq[x]]]
 
-\* slot n goes away: its handle's request queue is dropped (pending requests are lost),
-\* final reply `rep` is queued first, then the reply sender is dropped; consumers get `cmsg`.
+\* listeners whose registration is still sitting in a handle's request queue
+PendListeners(pend) ==
+    {pend[i].l : i \in {j \in DOMAIN pend : pend[j].k \in {"setret", "setconf"}}}
+
+DropSenders(w, ls) ==
+    [w EXCEPT !.lq = [x \in DOMAIN w.lq |-> IF x \in ls THEN [w.lq[x] EXCEPT !.tx = FALSE] ELSE w.lq[x]]]
+
+\* slot n goes away: its handle's request queue is dropped (pending requests are lost, and with
+\* them the listener senders they carried), final reply `rep` is queued first, then the reply
+\* sender is dropped; consumers get `cmsg` and their senders are dropped.
 RemoveSlot(w, n, rep, cmsg) ==
     LET slot == w.slots[n]
         h == slot.h
         w1 == PushRep(w, h, rep)
-        w2 == IF w1.fatal # "" THEN w1 ELSE EndAllCons(w1, ConsOf(slot), cmsg)
+        w2 == IF w1.fatal # "" THEN w1
+              ELSE IF "noterminal" \in Bug
+                   THEN [w1 EXCEPT !.cq = [c \in DOMAIN w1.cq |->
+                                             IF c \in ConsOf(slot) THEN [w1.cq[c] EXCEPT !.tx = FALSE] ELSE w1.cq[c]]]
+                   ELSE EndAllCons(w1, ConsOf(slot), cmsg)
     IN IF w2.fatal # "" THEN w2
-       ELSE DropListeners([w2 EXCEPT !.slots = Del(@, n),
-                                      !.hs[h].dead = TRUE, !.hs[h].tx = FALSE, !.hs[h].pend = <<>>], slot)
+       ELSE DropSenders(DropListeners([w2 EXCEPT !.slots = Del(@, n),
+                                      !.hs[h].dead = TRUE, !.hs[h].tx = FALSE, !.hs[h].pend = <<>>], slot),
+                        PendListeners(w.hs[h].pend))
 
 RECURSIVE RemoveAllSlots(_, _, _, _)
 RemoveAllSlots(w, ids, rep, cmsg) ==
@@ -236,7 +259,9 @@ Dispatch(w, f) ==
       [] f.type = "method" /\ n # 0 /\ f.m = "channel.close" ->
             IF ~open THEN Bogus(w)
             ELSE LET e == SrvChanErr(n, f)
-                     w1 == RemoveSlot(w, n, ErrRep(e), [kind |-> "ServerClosedChannel", err |-> e])
+                     w1 == IF "closeall" \in Bug
+                           THEN RemoveAllSlots(w, DOMAIN w.slots, ErrRep(e), [kind |-> "ServerClosedChannel", err |-> e])
+                           ELSE RemoveSlot(w, n, ErrRep(e), [kind |-> "ServerClosedChannel", err |-> e])
                  IN IF w1.fatal # "" THEN w1
                     ELSE PushOut(w1, [type |-> "method", ch |-> n, m |-> "channel.close-ok"])
       [] f.type = "method" /\ n # 0 /\ f.m = "channel.close-ok" ->
@@ -284,7 +309,10 @@ Dispatch(w, f) ==
                                         dtag |-> f.delivery_tag, multiple |-> f.multiple])
                  ELSE [w EXCEPT !.slots[n].conf = ""]
       [] f.type = "method" /\ n # 0 /\ f.m \in GenericReplies ->
-            IF ~open THEN Bogus(w) ELSE PushRep(w, w.slots[n].h, OkRep(f))
+            IF ~open THEN Bogus(w)
+            ELSE IF "misroute" \in Bug
+                 THEN PushRep(w, w.slots[CHOOSE k \in DOMAIN w.slots : \A j \in DOMAIN w.slots : k <= j].h, OkRep(f))
+                 ELSE PushRep(w, w.slots[n].h, OkRep(f))
       [] f.type = "method" /\ n # 0 /\ f.m \in NotImplemented -> ClientException(w, 540)
       [] f.type = "method" /\ n # 0 /\ (f.m \in NotAllowed \/ f.m \in
              {"connection.start", "connection.secure", "connection.tune", "connection.open-ok",
@@ -337,6 +365,9 @@ Wrote(w) == [w EXCEPT !.out = Tail(@)]
 Done(w) ==
     \/ w.phase = "cliclosed"
     \/ (w.phase \in {"srvclosing", "cliexc"} /\ w.out = <<>>)
+
+\* normal termination happens as soon as the completion test succeeds
+Settle(x) == IF x.fatal = "" /\ ~x.gone /\ Done(x) THEN Exit(x) ELSE x
 
 \* result of the I/O thread (what Connection::close reports after joining it)
 ExitResult(w) ==
